@@ -50,6 +50,8 @@ type Contract struct {
 	Ats      map[string][]AtClause
 	Pure     bool
 	Trusted  string
+	Hides    []string // heap keys whose effects by this function are not reported to callers (assumption, with reason)
+	HidesWhy string
 	Props    []string
 	Ghosts   []string
 	File     string
@@ -70,6 +72,20 @@ type Pred struct {
 var predRe = regexp.MustCompile(`^pred\s+(\w+)\.(\w+)\(([^)]*)\)\s*=\s*(.*)$`)
 
 var preds = map[string]*Pred{}
+
+// Immutable: `//@ immutable[C01] region.info: name, startKey in region.NewInfo` - the listed fields are written only by
+// the named function (construction); checked syntactically over the typed AST of the whole module on every run.
+type Immutable struct {
+	Tags   []string
+	Type   string // pkg.Type
+	Fields []string
+	In     string // function key allowed to write
+	File   string
+	Line   int
+}
+
+var immutables []*Immutable
+var immutableRe = regexp.MustCompile(`^immutable(\[[^\]]*\])?\s+([\w.]+)\s*:\s*(.*?)\s+in\s+(\S+)$`)
 
 type Lemma struct {
 	Name string
@@ -123,6 +139,21 @@ func parseContractFile(path string, into map[string]*Contract) error {
 			body = pending + body
 			ln = pendingLine
 			pending = ""
+		}
+		if strings.HasPrefix(body, "immutable") {
+			m := immutableRe.FindStringSubmatch(body)
+			if m == nil {
+				return fmt.Errorf("%s:%d: bad immutable line %q", path, ln, body)
+			}
+			im := &Immutable{Type: m[2], Fields: splitNames(m[3]), In: m[4], File: path, Line: ln}
+			for _, t := range strings.Split(strings.Trim(m[1], "[]"), ",") {
+				if t = strings.TrimSpace(t); t != "" {
+					im.Tags = append(im.Tags, t)
+				}
+			}
+			immutables = append(immutables, im)
+			cur = nil
+			continue
 		}
 		if strings.HasPrefix(body, "pred ") {
 			m := predRe.FindStringSubmatch(body)
@@ -232,6 +263,18 @@ func parseClause(c *Contract, body, file string, ln int) error {
 			m = strings.TrimSpace(m)
 			if m != "" && m != "nothing" {
 				c.Modifies = append(c.Modifies, m)
+			}
+		}
+	case "hides":
+		// hides <key>, <key> "reason": effects on these ghost keys are scoped to the callee (nested operations counted
+		// separately); callers see them unchanged. An assumption, reported as such.
+		if i := strings.Index(rest, "\""); i >= 0 {
+			c.HidesWhy = strings.Trim(strings.TrimSpace(rest[i:]), "\"")
+			rest = rest[:i]
+		}
+		for _, m := range splitTop(rest, ",") {
+			if m = strings.TrimSpace(m); m != "" {
+				c.Hides = append(c.Hides, m)
 			}
 		}
 	case "pure":
